@@ -232,6 +232,47 @@ func (w *World) apply(ds *Doc, op sim.Op, o *Obs) {
 			ds.Tables = append(ds.Tables, d2.Body.GetTables()...)
 		}
 		w.Stats.Probe("markdown_conversions")
+	case k == "mdfile":
+		// S[0]=markdown source, I[0]=option bits or -1 for nil options: the source is written to a file of its own directory
+		// (relative to the worker's working directory, so that paths that end up in the document read the same in every
+		// phase and process), converted with ConvertFile by the world's one Converter, and the result is opened.
+		n, _ := w.Extra[fmt.Sprintf("mdfile-n%d", ds.Slot)].(int)
+		w.Extra[fmt.Sprintf("mdfile-n%d", ds.Slot)] = n + 1
+		dir := filepath.Join("md", fmt.Sprintf("d%d_%d", ds.Slot, n))
+		if err := os.MkdirAll(dir, 0o755); err != nil {
+			panic("world: mdfile: " + err.Error())
+		}
+		src, out := filepath.Join(dir, "src.md"), filepath.Join(dir, "out.docx")
+		if err := os.WriteFile(src, []byte(op.Str(0)), 0o644); err != nil {
+			panic("world: mdfile: " + err.Error())
+		}
+		var opts *markdown.ConvertOptions
+		if op.Int(0) >= 0 {
+			opts = markdown.DefaultOptions()
+			opts.EnableGFM, opts.EnableTables, opts.EnableTaskList, opts.EnableMath = op.Int(0)&1 != 0, op.Int(0)&2 != 0, op.Int(0)&4 != 0, op.Int(0)&8 != 0
+		}
+		conv, _ := w.Extra["md-converter"].(*markdown.Converter)
+		if conv == nil {
+			conv = markdown.NewConverter(markdown.DefaultOptions())
+			w.Extra["md-converter"] = conv
+		}
+		o.Err = conv.ConvertFile(src, out, opts)
+		if o.Err != nil {
+			return
+		}
+		d2, err := document.Open(out)
+		os.Remove(out)
+		o.Err = err
+		if err != nil || d2 == nil {
+			return
+		}
+		ds.D, ds.Dead, ds.Foreign, ds.Base = d2, false, nil, nil
+		ds.Paras, ds.Tables, ds.Images = nil, nil, nil
+		if d2.Body != nil {
+			ds.Paras = append(ds.Paras, d2.Body.GetParagraphs()...)
+			ds.Tables = append(ds.Tables, d2.Body.GetTables()...)
+		}
+		w.Stats.Probe("markdown_file_conversions")
 	case strings.HasPrefix(k, "t."):
 		w.applyTable(ds, op, o)
 	case strings.HasPrefix(k, "p."):
